@@ -179,6 +179,49 @@ theorem close_stops_session (cfg : Cfg C) (st : SState D) (env : Env) (i : In D)
     · rfl
     · exact ih se hse
 
+/-- (every violation stops the session) On a live, not yet authenticated session, any
+authentication message other than the one the state goes on with — malformed (`empty`), of the
+wrong kind, out of order, repeated, or carrying a wrong digest — closes the state machine, stops
+the session in that very step and emits no gated effect. -/
+theorem auth_violation_stops_session (cfg : Cfg C) (st : SState D) (env : Env) (m : Msg D)
+    (hlive : st.stopped = false) (hself : selfConnection cfg st = false)
+    (hno : st.auth.isOk = false) (hv : st.auth.accepts m = false) :
+    (handle H cfg st env (.frame (.auth m))).1.auth.isClose = true ∧
+    (handle H cfg st env (.frame (.auth m))).1.stopped = true ∧
+    Effect.stopSelf "auth_fail" ∈ (handle H cfg st env (.frame (.auth m))).2 ∧
+    ∀ e ∈ (handle H cfg st env (.frame (.auth m))).2, e.gated = false := by
+  have hfacts := handle_facts H cfg st env (.frame (.auth m))
+  have hstep : handle H cfg st env (.frame (.auth m)) = onAuthFrame H cfg st env m := by
+    simp [handle, hlive, hself]
+  -- the state machine closes
+  have hclose : (handleAuth H cfg st env m).1.auth.isClose = true ∧
+      (handleAuth H cfg st env m).1.stopped = true ∧
+      Effect.stopSelf "auth_fail" ∈ (handleAuth H cfg st env m).2 := by
+    unfold handleAuth
+    rw [if_neg (by simp [hno])]
+    obtain ⟨auth, name, connId, rdy, proxies, advertised, monitoring, stopped⟩ := st
+    cases auth with
+    | server s =>
+      have hn := Server.next_violation H cfg.cookie env.fresh s m hv
+      cases s <;> simp [AuthSt.isClose, authServer, hn, Server.isClose]
+    | client c =>
+      have hn := Client.next_violation H cfg.cookie env.fresh c m hv
+      cases c <;> simp [AuthSt.isClose, authClient, hn, Client.isClose]
+  have hnok : (handleAuth H cfg st env m).1.auth.isOk = false := by
+    cases hh : (handleAuth H cfg st env m).1.auth.isOk
+    · rfl
+    · rw [isOk_not_isClose _ hh] at hclose; exact absurd hclose.1 (by simp)
+  have hr : onAuthFrame H cfg st env m = handleAuth H cfg st env m := by
+    simp [onAuthFrame, hnok]
+  rw [hstep, hr]
+  refine ⟨hclose.1, hclose.2.1, hclose.2.2, ?_⟩
+  intro e he
+  cases hg : e.gated
+  · rfl
+  · have := hfacts.gate e (by rw [hstep, hr]; exact he) hg
+    rw [hstep, hr, hnok] at this
+    exact absurd this (by simp)
+
 /-- (allow-list, one step) A cast or call is handed to a local actor only if its pid is in
 the set advertised to this peer and the actor is live and supports remoting right now. -/
 theorem delivery_only_to_advertised (cfg : Cfg C) (st : SState D) (env : Env) (i : In D) (pid : Nat) (k : Bool)
@@ -295,6 +338,7 @@ end C17
 #print axioms C17.no_effect_without_digest
 #print axioms C17.close_is_final
 #print axioms C17.close_stops_session
+#print axioms C17.auth_violation_stops_session
 #print axioms C17.delivery_only_to_advertised
 #print axioms C17.advertised_were_announced
 #print axioms C17.unauthenticated_session_is_inert
